@@ -68,6 +68,7 @@ type FileSpec struct {
 	B64     string `json:"b64,omitempty"` // binary content (takes precedence)
 	Dir     bool   `json:"dir,omitempty"`
 	LinkTo  string `json:"link_to,omitempty"` // the file is a symbolic link to this path (relative to the run directory)
+	HardTo  string `json:"hard_to,omitempty"` // the file is a second name (hard link) of this file, which stands earlier in the list
 	Mode    uint32 `json:"mode,omitempty"`
 }
 
